@@ -1,14 +1,19 @@
 """C14 — single-document operations act on exactly one, well-defined document.
 
-Histories with several matching documents, sort specifications, projections (including ones
-that drop `_id` or everything), both return modes and upserts run on the real code and on the
-Lean model (`MongoModel.stepX`).  Directly on python: before every single-document operation
-the harness asks the real code which documents match (and in which sort order) and afterwards
-checks that exactly the first one was touched and that the returned image is that document's.
+Histories with several matching documents, sort specifications (1-3 keys, ascending and
+descending in every position, over scalar, array-valued, embedded-document, dotted and absent
+keys, `_id` and `$natural`), projections (including ones that drop `_id` or everything), both
+return modes and upserts run on the real code and on the Lean model (`MongoModel.stepX`).
+Directly on python: before every single-document operation the harness asks the real code which
+documents match (in natural order), puts them in the requested sort order with the independent
+reference order of harness/c11_order.py (written from the property's text, not the library's
+sort) and afterwards checks that exactly the first one was touched and that the returned image is
+that document's.
 """
 import copy
 import sys
 
+import c11_order
 import common
 import hist
 import histcheck
@@ -18,16 +23,24 @@ ID = 'C14'
 SALT = 1414
 RULE = ('history = 3-18 generated operations dominated by update_one / replace_one / delete_one '
         'and find_one_and_update / _replace / _delete with filters matching several documents, '
-        '1-2 key sort specifications, projections (none, inclusion, exclusion, {_id: 0}, one that '
-        'yields {}), return_document BEFORE/AFTER and upsert; every step is compared with the '
-        'Lean model (outcome, full state); on python the set of matches and their sort order are '
-        'taken before the call and afterwards exactly the first one may differ / disappear and '
-        'the returned document must be its projected before / after image; non-trivial = a '
-        'find_one_and_* whose first match in sort order is not its first match in natural order; '
-        'distinct = by hash of the history')
+        'sort specifications of 1-3 keys (top-level fields holding scalars of every kind, arrays, '
+        'embedded documents or nothing, dotted paths, _id, $natural; every key ascending or '
+        'descending whatever its position, ties on every key frequent), projections (none, '
+        'inclusion, exclusion, {_id: 0}, one that yields {}), return_document BEFORE/AFTER and '
+        'upsert; every step is compared with the Lean model (outcome, full state); on python the '
+        'matches are taken before the call (find(filter), natural order) and put in the requested '
+        'sort order by the reference order of harness/c11_order.py (key by key, a descending key '
+        'reverses that key only, ties on every key keep natural order); afterwards exactly the '
+        'first one may differ / disappear and the returned document must be its projected before '
+        '/ after image; non-trivial = a find_one_and_* whose first match in sort order is not its '
+        'first match in natural order; distinct = by hash of the history')
 ASSUMPTIONS = [
-    'the pre-call match list uses the real find(filter) / find(filter).sort(...) (C01, C11 cover '
-    'those) and the expected images use the real find_one({_id}, projection) (C12)',
+    'the pre-call match list uses the real find(filter) (C01 covers it) and the expected images '
+    'use the real find_one({_id}, projection) (C12); the sort order of the matches is the '
+    'python-only reference harness/c11_order.py `ref_sorted` - where it makes no claim (positional '
+    'paths, scalars met inside an array on a dotted path, the listed deviations of C11: NaN keys, '
+    'Python-== items inside compared arrays / documents, ...) the order of the real '
+    'find(filter).sort(...) is used instead',
     'TTL-free histories; positional $ paths unmodelled',
 ]
 
@@ -44,6 +57,8 @@ def histgen(rng, oids):
         find_one_and_replace=8, find_one_and_delete=8), ttl=False)
     hg.ug.malformed = 0.02
     hg.filt = hg.fam_filter
+    hg.sort = hg.wide_sort
+    hg.array_keys = 0.15
     return hg
 
 
@@ -54,24 +69,66 @@ def length(rng):
 view = histcheck.full_view
 
 
+REF_STATS = {'fam_steps_judged_by_reference_order': 0, 'fam_steps_library_order_only': 0,
+             'fam_steps_descending_key_not_last_with_ties': 0}
+
+
+def sort_of(op):
+    return op[4] if op[0] != 'find_one_and_delete' else op[3]
+
+
+def requested_order(matches, sort, lib_sorted):
+    """the matches (given in natural order) in the requested sort order → (documents, True) by
+    the reference order; where the reference makes no claim, (the real cursor's order, False)"""
+    if not sort:
+        return list(matches), True
+    spec = [tuple(x) for x in sort]
+    try:
+        flags = c11_order.flags_of(matches, [spec])
+        if flags:
+            raise c11_order.Outside('listed deviation of C11: ' + ', '.join(sorted(flags)))
+        return c11_order.ref_sorted(matches, spec), True
+    except c11_order.Outside:
+        return lib_sorted, False
+
+
+def ties_under_descending_key(matches, sort):
+    """a descending key that is not the last key, with two matches equal on it"""
+    for n, (k, direction) in enumerate(sort[:-1]):
+        if direction < 0 and not k.startswith('$'):
+            ks = [c11_order.ref_key(d, k, True) for d in matches]
+            if any(c11_order.key_cmp(x, y) == 0 for i, x in enumerate(ks) for y in ks[:i]):
+                return True
+    return False
+
+
 def pre_probe(runner, op):
     k = op[0]
     if k not in ONE and k not in FAM:
         return None
     c = runner.coll
     filt = copy.deepcopy(op[1])
+    by_ref = None
     try:
-        if k in FAM:
-            sort = op[4] if k != 'find_one_and_delete' else op[3]
-            cur = c.find(filt)
-            if sort:
-                cur = cur.sort([tuple(x) for x in sort])
-            ordered = [d['_id'] for d in cur]
-        else:
-            ordered = [d['_id'] for d in c.find(filt)]
-        natural = [d['_id'] for d in c.find(copy.deepcopy(op[1]))]
+        matches = list(c.find(filt))
+        lib_sorted = None
+        if k in FAM and sort_of(op):
+            # the real cursor's order: used only where the reference makes no claim; a sort the
+            # library refuses is refused by the call itself (no claim on that step)
+            lib_sorted = list(c.find(copy.deepcopy(op[1])).sort([tuple(x) for x in sort_of(op)]))
     except Exception as e:  # pylint: disable=broad-except
         return {'error': type(e).__name__}
+    natural = [d['_id'] for d in matches]
+    if k in FAM:
+        docs, by_ref = requested_order(matches, sort_of(op), lib_sorted)
+        ordered = [d['_id'] for d in docs]
+        if sort_of(op):
+            REF_STATS['fam_steps_judged_by_reference_order' if by_ref else
+                      'fam_steps_library_order_only'] += 1
+            if by_ref and ties_under_descending_key(matches, sort_of(op)):
+                REF_STATS['fam_steps_descending_key_not_last_with_ties'] += 1
+    else:
+        ordered = natural
     # positions in the natural order of the whole collection (= the previous observation)
     allids = [d['_id'] for d in c.find({})]
 
@@ -84,7 +141,7 @@ def pre_probe(runner, op):
                 return j
         return -1
     res = {'ordered': [pos(x) for x in ordered], 'natural': [pos(x) for x in natural],
-           'size': len(allids)}
+           'size': len(allids), 'by_ref': by_ref}
     if k in FAM and ordered:
         proj = op[3] if k != 'find_one_and_delete' else op[2]
         try:
@@ -141,8 +198,11 @@ def oracle(history, steps):
                 wrong = [x for x in ch if freeze(x) != freeze(first)]
                 if wrong:
                     fails.append((i, 'wrong-target', '%s should act on %r (first match in %s '
-                                  'order) but changed %r' % (k, first, 'sort' if k in FAM else
-                                                             'natural', wrong)))
+                                  'order%s) but changed %r'
+                                  % (k, first, 'sort' if k in FAM else 'natural',
+                                     ': matches in natural order at positions %r, in the '
+                                     'requested order %r' % (pre['natural'], pre['ordered'])
+                                     if k in FAM else '', wrong)))
                 if len(ch) > 1:
                     fails.append((i, 'more-than-one', '%s changed %d documents: %r' % (k, len(ch), ch)))
             if k in FAM and first is not NONE:
@@ -216,4 +276,12 @@ def nontrivial(history, steps):
     return False
 
 
-run, replay, replay_finding = histcheck.module_api(sys.modules[__name__], 1000, 25000, fixed=True)
+_run, replay, replay_finding = histcheck.module_api(sys.modules[__name__], 1000, 25000, fixed=True)
+
+
+def run(ctx, proof, driver_ok):
+    for key in REF_STATS:
+        REF_STATS[key] = 0
+    cov = _run(ctx, proof, driver_ok)
+    cov.update(REF_STATS)
+    return cov
